@@ -87,6 +87,11 @@ var c12Templates = []string{
 	"{namespace a}\n/** @param x\n @param n */\n{template .t}\n{$x}{msg desc=\"d\"}{plural $n}{case 0}none{case 1}one {$x} item{default}{$n} items of <i>{$x}</i> here{/plural}{/msg}\n{/template}\n",
 	// 8: a plural message followed by further output
 	"{namespace a}\n/** @param x\n @param n */\n{template .t}\n{msg desc=\"d\"}{plural $n}{case 1}one{default}{$x} many{/plural}{/msg}{$x}\n{/template}\n",
+	// 9: a template that is nothing but static text (and one reached through a call)
+	"{namespace a}\n/** */\n{template .t}\n<footer>static text only</footer>\n{/template}\n",
+	"{namespace a}\n/** */\n{template .t}\n{call .s /}\n{/template}\n/** */\n{template .s}\nstatic callee\n{/template}\n",
+	// 11: an empty template and a template whose only output is an empty print
+	"{namespace a}\n/** @param x */\n{template .t}\n{if $x == 'never'}y{/if}\n{/template}\n",
 }
 
 // c12Bundle: a catalogue translating the message of template 2 (text and placeholder parts are
